@@ -160,6 +160,12 @@ func (a *Alpha) Enabled(s *State) []Event {
 					fmt.Sscanf(d, "restart:%d", &n)
 					evs = append(evs, Event{K: "restart", A: nn(p), N: n, Dev: dev})
 				}
+			case strings.HasPrefix(d, "restart@"): // "restart@<container index>:<n>": a restart of that container (if the pod has it)
+				var ci, n int
+				fmt.Sscanf(d, "restart@%d:%d", &ci, &n)
+				if p.Status.Phase == corev1.PodRunning && ci < len(p.Spec.Containers) {
+					evs = append(evs, Event{K: "restart", A: nn(p), B: fmt.Sprint(ci), N: n, Dev: dev})
+				}
 			case d == "fail":
 				if p.Status.Phase != corev1.PodFailed && p.Status.Phase != corev1.PodUnknown {
 					evs = append(evs, Event{K: "fail", A: nn(p), Dev: dev})
